@@ -305,30 +305,53 @@ Definition conc_ok (s : sstate) (lo : N) (n : nat) (i : hin) (d : N) (res : list
     end
   end).
 
-Fixpoint ok_ops (s : sstate) (lo : N) (ops : list op19) : bool :=
+(** (re)initialisation only adopts a head from trusted peers, for a scripted interleaving.
+    [init_on_trusted c n]: some caller that decided (re)initialisation (no or an expired subjective
+    head) is waiting for the single flight while its leader asked WITH a trusted head (a stale-head
+    request, which tracked peers may answer).  [sched_bad]: that happens after some action of the
+    script (callers run until they block, so this is where a joiner sits).  The clause: whenever it
+    happens, the implementation must have issued a request WITHOUT a trusted head (observed in
+    [calls]) -- the (re)initialising caller must not be served by the stale-head request. *)
+Definition init_on_trusted (c : cstate) (n : nat) : bool :=
+  existsb (fun j => match c_pc c j with PWait KInit _ => true | _ => false end) (seq 0 n) &&
+  existsb (fun j => match c_pc c j with PLead (KStale _) => true | _ => false end) (seq 0 n).
+
+Fixpoint sched_bad (n : nat) (i : hin) (c : cstate) (acts : list act) : bool :=
+  match acts with
+  | [] => false
+  | a :: r => let c1 := fst (crun p tv c (expand n i a)) in init_on_trusted c1 n || sched_bad n i c1 r
+  end.
+
+Definition is_untrusted_call (o : option N) : bool := match o with None => true | Some _ => false end.
+
+Definition sched_init_ok (s : sstate) (n : nat) (i : hin) (acts : list act) (calls : list (option N)) : bool :=
+  negb (sched_bad n i (cinit s) acts) || existsb is_untrusted_call calls.
+
+(** [strict = false] leaves out the clause of the open known finding F31 (sched_init_ok) *)
+Fixpoint ok_ops (strict : bool) (s : sstate) (lo : N) (ops : list op19) : bool :=
   match ops with
   | [] => true
-  | KTick d :: r => ok_ops (tick s (Z.of_N d)) lo r
-  | KGossip h b t _ _ :: r => ok_ops (post sync (fst (gossip p tv s h b t))) lo r
+  | KTick d :: r => ok_ops strict (tick s (Z.of_N d)) lo r
+  | KGossip h b t _ _ :: r => ok_ops strict (post sync (fst (gossip p tv s h b t))) lo r
   | KHead st i res calls _ _ :: r =>
     clause_ok s st i res calls && mono_ok lo res &&
-    ok_ops (post sync (o_st (head_seq p tv s i))) (new_lo lo res) r
+    ok_ops strict (post sync (o_st (head_seq p tv s i))) (new_lo lo res) r
   | KConc n i w d res calls _ :: r =>
     conc_ok s lo n i d res calls &&
-    ok_ops (post sync (fst (fst (conc_model s n i w d)))) (fold_left new_lo res lo) r
-  | KSched n i acts res _ _ _ :: r =>
-    forallb (mono_ok lo) res &&
-    ok_ops (post sync (fst (fst (fst (sched_model s n i acts))))) (fold_left new_lo res lo) r
+    ok_ops strict (post sync (fst (fst (conc_model s n i w d)))) (fold_left new_lo res lo) r
+  | KSched n i acts res _ calls _ :: r =>
+    forallb (mono_ok lo) res && (negb strict || sched_init_ok s n i acts calls) &&
+    ok_ops strict (post sync (fst (fst (fst (sched_model s n i acts))))) (fold_left new_lo res lo) r
   | KPark pk g a i r1 r2 r3 r4 :: r =>
     (* callers 1 and 2 returned before caller 3 started: its result is not below theirs *)
     let l := olist r1 ++ olist r2 ++ olist r3 ++ olist r4 in
     forallb (mono_ok lo) l && ole (oheight r1) (oheight r3) && ole (oheight r2) (oheight r3) &&
-    ok_ops (post sync (fst (fst (fst (fst (park_model s pk g a i)))))) (fold_left new_lo l lo) r
+    ok_ops strict (post sync (fst (fst (fst (fst (park_model s pk g a i)))))) (fold_left new_lo l lo) r
   | KRace g a i r1 r2 r3 r4 :: r =>
     (* caller 2 returned before caller 3 started (caller 1 overlaps both) *)
     let l := olist r1 ++ olist r2 ++ olist r3 ++ olist r4 in
     forallb (mono_ok lo) l && ole (oheight r2) (oheight r3) &&
-    ok_ops (post sync (fst (fst (fst (fst (race_model s g a i)))))) (fold_left new_lo l lo) r
+    ok_ops strict (post sync (fst (fst (fst (fst (race_model s g a i)))))) (fold_left new_lo l lo) r
   end.
 
 End run.
@@ -339,11 +362,20 @@ Definition model19 (c : case19) : list op19 :=
   fill (k_p c) (link_tv (k_range c)) (k_sync c) (s0_of c) (k_ops c).
 
 Definition ok19 (c : case19) : bool :=
-  ok_ops (k_p c) (link_tv (k_range c)) (k_sync c) (s0_of c) 0 (k_ops c).
+  ok_ops (k_p c) (link_tv (k_range c)) (k_sync c) true (s0_of c) 0 (k_ops c).
 
-(** no open known finding: F19 (a parked setLocalHead lowering the local head) was
-    repaired by /repo dd38a4c; its witness case (KPark true) is an ordinary case now *)
-Definition class19 (c : case19) : N := 0.
+(** everything except the clause of F31 *)
+Definition ok19_loose (c : case19) : bool :=
+  ok_ops (k_p c) (link_tv (k_range c)) (k_sync c) false (s0_of c) 0 (k_ops c).
+
+(** open known finding F31, class 31 (the single flight of sync/sync_head.go is shared across
+    request kinds): exactly the cases in which the ONLY failing clause is [sched_init_ok] -- in a
+    scripted interleaving a (re)initialising caller sat on a flight opened with a trusted head and
+    no request without trusted head was observed.  Any other failure keeps class 0.
+    (F19, a parked setLocalHead lowering the local head, was repaired by /repo dd38a4c; its witness
+    case (KPark true) is an ordinary case.) *)
+Definition class19 (c : case19) : N :=
+  if ok19_loose c && negb (ok19 c) then 31 else 0.
 
 Definition chk19 (c : case19) : bool * bool * N :=
   (list_eqb op_eqb (model19 c) (k_ops c), ok19 c, class19 c).
@@ -635,7 +667,7 @@ Proof.
   rewrite H1, Hb. reflexivity.
 Qed.
 
-Lemma ok_fill ops : forall s lo, lo <= L s -> ok_ops p tv sync s lo (fill p tv sync s ops) = true.
+Lemma ok_fill ops : forall s lo, lo <= L s -> ok_ops p tv sync false s lo (fill p tv sync s ops) = true.
 Proof.
   induction ops as [|o ops IH]; intros s lo Hlo; cbn; [reflexivity|].
   destruct o as [d|h b t ok sh|st i res calls sh el|n i w d res calls sh|n i acts res gok calls sh|pk g a i r1 r2 r3 r4|g a i r1 r2 r3 r4]; cbn.
@@ -662,12 +694,30 @@ Qed.
 
 End ok.
 
-(** for every case: the check accepts the observations the model itself produces *)
-Theorem model19_ok : forall p range sync store now ops,
-  ok19 (Case19 p range sync store now (model19 (Case19 p range sync store now ops))) = true.
+(** for every case: the check accepts the observations the model itself produces -- all clauses
+    but the one of the open finding F31 ... *)
+Theorem model19_ok_loose : forall p range sync store now ops,
+  ok19_loose (Case19 p range sync store now (model19 (Case19 p range sync store now ops))) = true.
 Proof.
-  intros p range sync store now ops. unfold ok19, model19. cbn. apply ok_fill. lia.
+  intros p range sync store now ops. unfold ok19_loose, model19. cbn. apply ok_fill. lia.
 Qed.
+
+(** ... and all of them outside the finding's class *)
+Theorem model19_ok : forall p range sync store now ops,
+  let c := Case19 p range sync store now (model19 (Case19 p range sync store now ops)) in
+  class19 c = 0 -> ok19 c = true.
+Proof.
+  intros p range sync store now ops c. unfold class19. unfold c at 1. rewrite model19_ok_loose.
+  destruct (ok19 c); [reflexivity | discriminate].
+Qed.
+
+(** the finding's witness on the model (the faithful model of the unfixed code): class 31 *)
+Example model19_f31_class :
+  let i := HIn 5 GFail ([], false) (TOk None) ([], false) in
+  let ops := [KSched 2 i [ACall 0; ATick 2; ACall 1; AAnswer (GOk f31_new)] [] [] [] 0] in
+  let c := Case19 f31_p 0 false (Some f31_sbj) 99 (model19 (Case19 f31_p 0 false (Some f31_sbj) 99 ops)) in
+  chk19 c = (true, false, 31).
+Proof. vm_compute. reflexivity. Qed.
 
 (** the former witness of F19: the model now shows 20, 20, 20, 20 *)
 Example model19_park_fixed :
